@@ -17,6 +17,9 @@ BOUNDARY_LENGTHS = [0, 1, 2, 3, 7, 8, 9, 15, 16, 17, 31, 32, 33, 63, 64, 65, 127
 LONG_LENGTHS = [1000, 1023, 1024, 1025, 1999, 2000, 2001, 3599, 3600, 3601, 8191, 8192, 8193, 16385]
 
 
+HUGE_INTS = [2 ** 31, 2 ** 31 - 1, -2 ** 31 - 1, 2 ** 32, 2 ** 63 - 1, 2 ** 63, -2 ** 63 - 1, 2 ** 64, 2 ** 64 + 1, -2 ** 64, 2 ** 100, -2 ** 100]
+
+
 def cls_of(name):
     return getattr(bitstring_module(), name)
 
@@ -97,6 +100,8 @@ def index_st(draw, n, extra=3):
     """A plain int index around a length n (in and beyond range)."""
     k = draw(st.integers(0, 3))
     if k == 0:
+        if draw(st.integers(0, 11)) == 0:
+            return draw(st.sampled_from(HUGE_INTS))   # beyond C long / Py_ssize_t
         return draw(st.sampled_from([0, 1, n - 1, n, n + 1, -1, -n, -n - 1, -n + 1]))
     if k == 1 and n >= 8:
         return 8 * draw(st.integers(0, n // 8))
